@@ -230,8 +230,56 @@ var regModel = porcupine.Model{
 // one checksum service unregistered, or with none (codec.Remove / codec.Clear are public API and
 // the frame encoders explicitly support running without a service).  It returns what it did and
 // a function that restores the four built-in services.
-func registryConfig(c *RunCtx, t *Tape) (string, func()) {
-	switch t.Intn(12) {
+func registryConfig(c *RunCtx, t *Tape) (string, func()) { return registryConfigX(c, t, true) }
+
+// user implementations of the three frame checksum algorithms that CONSUME the buffer they are
+// given while computing the right value: legal for a ChecksumService (the library hands it a
+// throw-away view), and what tells a view from the caller's live buffer
+type readingSSE struct{}
+
+func (readingSSE) Algorithm() string { return "SSE_BIN" }
+func (readingSSE) Calc(b *bytes.Buffer) uint32 {
+	v := refSum8(b.Bytes())
+	b.Next(b.Len())
+	return v
+}
+
+type readingSZSE struct{}
+
+func (readingSZSE) Algorithm() string { return "SZSE_BIN" }
+func (readingSZSE) Calc(b *bytes.Buffer) int32 {
+	v := refSum8(b.Bytes())
+	b.Next(b.Len())
+	return int32(v)
+}
+
+type readingCRC32 struct{}
+
+func (readingCRC32) Algorithm() string { return "CRC32" }
+func (readingCRC32) Calc(b *bytes.Buffer) uint32 {
+	v := refCRC32(b.Bytes())
+	b.Next(b.Len())
+	return v
+}
+
+// registryConfigX: allowMissing=false restricts the fault to configurations in which every
+// service is still present (used where the property needs the checksum to be computed).
+func registryConfigX(c *RunCtx, t *Tape, allowMissing bool) (string, func()) {
+	k := t.Intn(12)
+	if k == 9 {
+		codec.Remove("SSE_BIN")
+		codec.Remove("SZSE_BIN")
+		codec.Remove("CRC32")
+		codec.Registry(readingSSE{})
+		codec.Registry(readingSZSE{})
+		codec.Registry(readingCRC32{})
+		c.Fire("cfg.user-checksum-services")
+		return "frame checksum services replaced by user implementations that read (consume) the buffer they are given", restoreBuiltins
+	}
+	if !allowMissing {
+		return "", func() {}
+	}
+	switch k {
 	case 10:
 		name := []string{"CRC16", "CRC32", "SSE_BIN", "SZSE_BIN"}[t.Intn(4)]
 		codec.Remove(name)
